@@ -190,7 +190,11 @@ class Wavefront:
             float: The corrected optical path difference.
         """
         tilt_correction = 0
-        if self.optic.field_type == 'angle':
+        # the rays of an infinitely distant field point start on a plane
+        # instead of on a wavefront of that field; a finite object point
+        # needs no such correction, whatever its field type
+        if self.optic.field_type == 'angle' and \
+                self.optic.object_surface.is_infinite:
             Hx, Hy = field
             # Hx, Hy are normalised by the maximum radial field, as in the
             # ray generator
@@ -205,8 +209,13 @@ class Wavefront:
             if y is None:
                 y = self.distribution.y * (1 - vy)
             EPD = self.optic.paraxial.EPD()
-            tilt_correction = ((1 - x) * np.sin(np.radians(x_tilt)) * EPD / 2 +
-                               (1 - y) * np.sin(np.radians(y_tilt)) * EPD / 2)
+            # direction cosines of the plane wave of this field, as launched
+            # by the ray generator (x slope -tan, y slope +tan)
+            tx = np.tan(np.radians(x_tilt))
+            ty = np.tan(np.radians(y_tilt))
+            norm = np.sqrt(1 + tx**2 + ty**2)
+            tilt_correction = ((1 - x) * (-tx / norm) * EPD / 2 +
+                               (1 - y) * (ty / norm) * EPD / 2)
             # optical path in the object medium
             n_object = self.optic.object_surface.material_post.n(
                 self._wavelength)
